@@ -52,6 +52,7 @@ RULE = ("one case = one real generator call (mask or return_acs) or one kernel c
         "x ranks 3..5 x rows/cols from {8..80} incl. odd, even, non-square; non-trivial = a generator call that returned a mask "
         "with at least two rows and columns (kernels: a non-degenerate input); distinct = distinct protocol line")
 PENDING_FINDINGS: list[str] = []
+EXTRA_LEAN_MODULES = ['DirectVerif.Lemmas.C04List', 'DirectVerif.Lemmas.C06Assemble', 'DirectVerif.Lemmas.C04Loops']
 
 _worker: G.Worker | None = None
 _cache: dict[str, dict] = {}
@@ -116,7 +117,8 @@ def center_bits(n: int, l: int) -> list[bool]:
 
 def gen_lines(spec: dict, res: dict):
     """protocol line for one generator call whose real result is `res` (None when no line can be built)"""
-    name, mode, shape, acc, cf = spec["gen"], spec["mode"], spec["shape"], spec["acc"], spec["cf"]
+    name, mode, shape = spec["gen"], spec["mode"], spec["shape"]
+    acc, cf = G.chosen(spec, res)
     racs = 1 if spec.get("return_acs") else 0
     hdr = [gid(name), mid(mode), racs]
     rank_ok = len(shape) >= (4 if mode != "static" else 3)
@@ -188,11 +190,13 @@ def gen_lines(spec: dict, res: dict):
 
 def circus_thresholds(rows: int, cols: int) -> list[int]:
     """floor(radius²) for the float radii 1, 1 + 0.1, … of the CIRCUS disc search, until well past the
-    radius at which the disc covers the whole grid."""
+    radius at which the disc covers the whole grid.  torch compares the integer tensor `d²` with the Python
+    float `radius**2` in float32, so the threshold is floor(float32(radius²)) (e.g. the accumulated radius
+    4.999999999999999 still admits d² = 25)."""
     far = (rows // 2 + 1) ** 2 + (cols // 2 + 1) ** 2
     out, radius = [], 1
     while True:
-        out.append(int(np.floor(radius ** 2)))
+        out.append(int(np.floor(np.float32(radius ** 2))))
         if radius ** 2 > far + 4:
             return out
         radius += 0.1
@@ -207,10 +211,10 @@ def generator_cases(ctx: Ctx, per_gen: int, acs: bool):
         for k in range(per_gen):
             mode = modes[k % len(modes)]
             ranks = [4, 5] if mode != "static" else [3, 4, 5]
-            spec = G.sample_case(rng, name, mode=mode, rank=ranks[(k // len(modes)) % len(ranks)])
+            spec = G.sample_case(rng, name, mode=mode, rank=ranks[(k // len(modes)) % len(ranks)], multi=0.3)
             if spec is None:
                 continue
-            if name in ("Radial", "Spiral") and rng.random() < 0.4:
+            if name in ("Radial", "Spiral") and rng.random() < 0.4 and not isinstance(spec["acc"], list):
                 spec["cf"] = None      # CIRCUS without centre fraction: largest sampled disc search
             for racs in ([False, True] if acs else [False]):
                 s = dict(spec, return_acs=racs)
@@ -430,10 +434,10 @@ def oracle(ctx: Ctx, deep: bool = False):
         for k in range(per_gen):
             mode = modes[k % len(modes)]
             feas = rng.random() < 0.85
-            spec = G.sample_case(rng, name, mode=mode, feasible_only=feas)
+            spec = G.sample_case(rng, name, mode=mode, feasible_only=feas, multi=0.25)
             if spec is None:
                 continue
-            if name in ("Radial", "Spiral") and rng.random() < 0.3:
+            if name in ("Radial", "Spiral") and rng.random() < 0.3 and not isinstance(spec["acc"], list):
                 spec["cf"] = None
             for racs in (False, True):
                 s = dict(spec, return_acs=racs)
